@@ -18,6 +18,9 @@
 (*   res t ts w               resumed after sleep (w = "-") / task.wait (w = what it saw) /     *)
 (*                            a blocking service call (w = "called")                            *)
 (*   cb t f a | cbop t f b ts d | cbres t ts                                                    *)
+(*   cbx t f x v g a          the running done-callback f of t calls task.add_done_callback     *)
+(*                            (x = "add") / remove_done_callback (x = "rm") of function g for   *)
+(*                            task v (v = t: task.current_task(), the ending task itself)       *)
 (*   snap owner live ours cbk ctxk extra     registries projected at a quiescent point          *)
 EXTENDS Tasks, Json, IOUtils
 
@@ -103,6 +106,10 @@ ResLine ==
 CbLine == /\ IsLine("cb") /\ Adv /\ UNCHANGED due
           /\ \/ CbStart(Line.t, Line.f) /\ cbs[Line.t][Line.f] = Line.a
              \/ CbStartStale(Line.t, Line.f) /\ StaleArg(Line.t, Line.f) = Line.a
+             \/ CbStartLoose(Line.t, Line.f, Line.a)
+CbXLine == /\ IsLine("cbx") /\ Adv /\ cbcur[Line.t] = Line.f /\ UNCHANGED due
+           /\ CASE Line.x = "add" -> CbAdd(Line.t, Line.v, Line.g, Line.a)
+                [] Line.x = "rm"  -> CbRm(Line.t, Line.v, Line.g)
 CbOpLine ==
   /\ IsLine("cbop") /\ Adv /\ cbcur[Line.t] = Line.f
   /\ CASE Line.b = "ret"   -> CbFinish(Line.t) /\ UNCHANGED due
@@ -138,7 +145,7 @@ S_CalleeKills   == Keep /\ \E t \in All : CalleeKills(t) /\ WaitWake(t)
 Silent == S_ReaperTake \/ S_ReaperDone \/ S_DeliverCancel \/ S_Cleanup \/ S_Refuse \/ S_Wake \/ S_WaitWake \/ S_CalleeKills
 
 TNext == SpawnLine \/ SpawnFLine \/ EnvCancelLine \/ N2iLine \/ XresLine \/ SkipLine \/ EnvSkipLine \/ StartLine \/ OpLine \/ ExcLine \/ ResLine
-         \/ CbLine \/ CbOpLine \/ CbResLine \/ SnapLine
+         \/ CbLine \/ CbXLine \/ CbOpLine \/ CbResLine \/ SnapLine
          \/ S_ReaperTake \/ S_ReaperDone \/ S_DeliverCancel \/ S_Cleanup \/ S_Refuse \/ S_Wake \/ S_WaitWake \/ S_CalleeKills
 TSpec == TInit /\ [][TNext]_tvars
 
